@@ -25,6 +25,7 @@ type specEnv struct {
 	resultSig *types.Signature
 	callee    *ssa.Function
 	pkgPath   string
+	ghost     map[string]string // ghost maps of a contract (name -> SMT function symbol)
 }
 
 type sv struct {
@@ -408,6 +409,31 @@ func (e *specEnv) quant(n *EQuant) sv {
 		return sv{Val: Val{t: fmt.Sprintf("(%s ((%s %s)) %s)", kw, name, srt, body), typ: tBool}}
 	}
 	loV, hiV := e.eval(n.Lo, tInt), e.eval(n.Hi, tInt)
+	if n.Sum {
+		if loV.lit == nil || hiV.lit == nil || new(big.Int).Sub(hiV.lit, loV.lit).Cmp(big.NewInt(128)) > 0 {
+			sfail("sum needs constant bounds (at most 128 terms)")
+		}
+		acc := ""
+		var ty types.Type = tInt
+		for k := new(big.Int).Set(loV.lit); k.Cmp(hiV.lit) < 0; k = new(big.Int).Add(k, big.NewInt(1)) {
+			inner := e.with(n.Var, Val{typ: tInt, lit: new(big.Int).Set(k)})
+			v := inner.eval(n.Body, tInt)
+			if v.typ != nil {
+				ty = v.typ
+			}
+			t := inner.term(v, ty)
+			if acc == "" {
+				acc = t
+			} else {
+				ii, _ := basicIntInfo(ty)
+				acc, _, _ = u.mode.arith("+", acc, t, ii)
+			}
+		}
+		if acc == "" {
+			return sv{lit: big.NewInt(0)}
+		}
+		return sv{Val: Val{t: acc, typ: ty}}
+	}
 	if loV.lit != nil && hiV.lit != nil && new(big.Int).Sub(hiV.lit, loV.lit).Cmp(big.NewInt(64)) <= 0 {
 		// constant bounds: expand
 		var parts []string
